@@ -7,6 +7,11 @@
 // directions through the array cursors (CreateCursorIterator) and, for the TSM-resident part, through KeyCursor,
 // and compared with a map model. States are canonical (cache contents, per-file contents, file levels) keys read
 // back from the implementation; a state already seen is not expanded again.
+//
+// Part 1 (before the BFS, own budget): flush layouts. Every way of spreading an out-of-order write history of the one
+// series over n cache snapshots with NO compaction in between (n TSM generations of 1..3 points each, any overlap
+// pattern of their time ranges: chains, nesting, disjoint, isolated blocks), up to order-isomorphism of the
+// timestamps, is built on a real engine and read over every sub-range in both directions through both read paths.
 package c01
 
 import (
@@ -177,6 +182,7 @@ type run struct {
 	e    *tsm1.Engine
 	root string
 	ctr  int64
+	val  float64 // if non-zero, writeF writes this value instead of the running counter (flush layouts: batch number)
 	m    *model
 	// snapshot in flight (between SnapBegin and SnapEnd)
 	snap     *tsm1.Cache
@@ -226,6 +232,9 @@ func (r *run) writeF(ts ...int64) error {
 	for _, t := range ts {
 		r.ctr++
 		v := float64(r.ctr)
+		if r.val != 0 {
+			v = r.val
+		}
 		mp, err := models.NewPoint(name, tags, models.Fields{fieldF: v}, time.Unix(0, t))
 		if err != nil {
 			return err
@@ -528,7 +537,7 @@ func toF(m map[int64]int64) map[int64]float64 {
 }
 
 // check reads every sub-range in both directions through both read paths and compares with the model.
-func (r *run) check(after string) (vs []verdict, herr string) {
+func (r *run) check(sfx string, hi int64, onlyF bool) (vs []verdict, herr string) {
 	seen := map[string]bool{}
 	add := func(sig, msg string) {
 		if !seen[sig] {
@@ -545,15 +554,18 @@ func (r *run) check(after string) (vs []verdict, herr string) {
 		all  map[int64]float64
 		tsm  map[int64]float64
 	}{{fieldF, r.m.f, r.m.tf}, {fieldG, toF(r.m.g), toF(r.m.tg)}} {
-		for a := int64(0); a <= 4; a++ {
-			for b := a; b <= 4; b++ {
+		if onlyF && fd.name != fieldF {
+			continue
+		}
+		for a := int64(0); a <= hi; a++ {
+			for b := a; b <= hi; b++ {
 				for _, asc := range []bool{true, false} {
 					got, exists, err := r.cursorRead(it, fd.name, a, b, asc)
 					if err != nil {
 						return vs, "cursor read: " + err.Error()
 					}
 					if !exists && len(fd.all) > 0 {
-						add("no-cursor/array-cursor/after-"+after, fmt.Sprintf("field %s has acknowledged writes but CreateCursorIterator returns no cursor", fd.name))
+						add("no-cursor/array-cursor/"+sfx, fmt.Sprintf("field %s has acknowledged writes but CreateCursorIterator returns no cursor", fd.name))
 						continue
 					}
 					want := expected(fd.all, a, b, asc)
@@ -562,7 +574,7 @@ func (r *run) check(after string) (vs []verdict, herr string) {
 						if !asc {
 							dir = "desc"
 						}
-						add(cl+"/array-cursor/"+dir+"/after-"+after, fmt.Sprintf("field %s range [%d,%d] %s: %s; read %s, acknowledged writes give %s", fd.name, a, b, dir, d, fmtPts(got), fmtPts(want)))
+						add(cl+"/array-cursor/"+dir+"/"+sfx, fmt.Sprintf("field %s range [%d,%d] %s: %s; read %s, acknowledged writes give %s", fd.name, a, b, dir, d, fmtPts(got), fmtPts(want)))
 					}
 				}
 			}
@@ -570,7 +582,7 @@ func (r *run) check(after string) (vs []verdict, herr string) {
 		if len(fd.all) == 0 {
 			continue
 		}
-		for t := int64(0); t <= 4; t++ {
+		for t := int64(0); t <= hi; t++ {
 			for _, asc := range []bool{true, false} {
 				got, err := r.keyCursorRead(fd.name, t, asc)
 				if err != nil {
@@ -583,20 +595,20 @@ func (r *run) check(after string) (vs []verdict, herr string) {
 						g2 = append(g2, p)
 					}
 				}
-				lo, hi := t, int64(4)
+				lo, up := t, hi
 				if !asc {
-					lo, hi = 0, t
+					lo, up = 0, t
 				}
 				// KeyCursor hands out raw blocks: blocks follow the cursor direction, values inside a block are always
 				// ascending. Only content is specified here (exactly one, latest, value per flushed timestamp).
 				sort.SliceStable(g2, func(i, j int) bool { return g2[i].t < g2[j].t })
-				want := expected(fd.tsm, lo, hi, true)
+				want := expected(fd.tsm, lo, up, true)
 				if cl, d := compare(g2, want, true); cl != "" {
 					dir := "asc"
 					if !asc {
 						dir = "desc"
 					}
-					add(cl+"/key-cursor/"+dir+"/after-"+after, fmt.Sprintf("field %s TSM-resident data from t=%d %s: %s; read %s, flushed writes give %s", fd.name, t, dir, d, fmtPts(g2), fmtPts(want)))
+					add(cl+"/key-cursor/"+dir+"/"+sfx, fmt.Sprintf("field %s TSM-resident data from t=%d %s: %s; read %s, flushed writes give %s", fd.name, t, dir, d, fmtPts(g2), fmtPts(want)))
 				}
 			}
 		}
@@ -706,7 +718,7 @@ func (ix *index) execute(path []Op, everyStep bool) (res execResult) {
 			res.effect = fmt.Sprintf("%s:files%d->%d", o.K, nb, len(r.files()))
 		}
 		if everyStep || i == len(path)-1 {
-			vs, herr := r.check(o.K)
+			vs, herr := r.check("after-"+o.K, 4, false)
 			if herr != "" {
 				res.herr = fmt.Sprintf("after step %d %s: %s", i+1, o, herr)
 				return
@@ -729,7 +741,305 @@ func (ix *index) execute(path []Op, everyStep bool) (res execResult) {
 }
 
 type Case struct {
-	Path []Op `json:"history"`
+	Path    []Op      `json:"history,omitempty"`
+	Flushes [][]int64 `json:"flushes,omitempty"` // flush-layout case: batch i is written in one WritePoints call, then WriteSnapshot
+}
+
+// ---------------------------------------------------------------------------------------------------
+// flush layouts: n cache snapshots of the one series and NO compaction
+// ---------------------------------------------------------------------------------------------------
+
+// layoutSpec bounds one family of layouts: nf batches (= TSM generations), each a set of 1..p timestamps, the union
+// of all batches being exactly {1..k} for every k ≤ kmax (so every assignment of timestamps to batches over any
+// grid of ≤ kmax values is order-isomorphic to exactly one enumerated layout). Families of phase 0 are enumerated
+// together, fewest distinct timestamps first; phase 1 (the big one) follows.
+type layoutSpec struct{ nf, p, kmax, phase int }
+
+func layoutSpecs(thorough bool) []layoutSpec {
+	if thorough {
+		return []layoutSpec{{1, 3, 3, 0}, {2, 3, 6, 0}, {3, 3, 6, 0}, {4, 3, 4, 0}, {4, 2, 8, 0}, {5, 3, 3, 0}, {5, 2, 4, 0}, {4, 3, 5, 1}}
+	}
+	return []layoutSpec{{1, 3, 3, 0}, {2, 3, 4, 0}, {3, 3, 4, 0}, {4, 3, 3, 0}, {4, 2, 4, 0}}
+}
+
+// covers: a layout of nf batches with k distinct timestamps and at most pop points per batch belongs to family q.
+func (q layoutSpec) covers(nf, k, pop int) bool { return q.nf == nf && k <= q.kmax && pop <= q.p }
+
+// subsets of {1..k} with 1..p elements as bit masks (bit t-1 = timestamp t), smaller sets first.
+func subsets(k, p int) []uint {
+	var out []uint
+	for sz := 1; sz <= p; sz++ {
+		for m := uint(1); m < 1<<uint(k); m++ {
+			if popcount(m) == sz {
+				out = append(out, m)
+			}
+		}
+	}
+	return out
+}
+
+func popcount(m uint) int {
+	n := 0
+	for ; m != 0; m &= m - 1 {
+		n++
+	}
+	return n
+}
+
+func maskTimes(m uint) []int64 {
+	var ts []int64
+	for t := int64(1); m != 0; t, m = t+1, m>>1 {
+		if m&1 != 0 {
+			ts = append(ts, t)
+		}
+	}
+	return ts
+}
+
+// forPrefixes visits every n-tuple of subsets (1..p elements) of {1..k} that one more such subset can complete to a
+// union of exactly {1..k}, in lexicographic order of the tuple; n = 0: the empty tuple.
+func forPrefixes(n, k, p int, visit func(files []uint, union uint) bool) {
+	subs := subsets(k, p)
+	full := uint(1)<<uint(k) - 1
+	cur := make([]uint, n)
+	var rec func(i int, union uint) bool
+	rec = func(i int, union uint) bool {
+		if popcount(full&^union) > (n+1-i)*p {
+			return true
+		}
+		if i == n {
+			return visit(cur, union)
+		}
+		for _, m := range subs {
+			cur[i] = m
+			if !rec(i+1, union|m) {
+				return false
+			}
+		}
+		return true
+	}
+	rec(0, 0)
+}
+
+func layoutString(files [][]int64) string {
+	var b strings.Builder
+	for i, f := range files {
+		if i > 0 {
+			b.WriteString(" | ")
+		}
+		b.WriteString("flush{")
+		for j, t := range f {
+			if j > 0 {
+				b.WriteByte(',')
+			}
+			fmt.Fprint(&b, t)
+		}
+		b.WriteByte('}')
+	}
+	return b.String()
+}
+
+// layoutPattern classifies how the time ranges [min,max] of the generations overlap: "single", "disjoint" (no two
+// overlap), "clique" (all pairs overlap), "chain" (two generations that do not overlap each other both overlap a
+// third one), "mixed" (anything else).
+func layoutPattern(files [][]int64) string {
+	n := len(files)
+	if n == 1 {
+		return "single"
+	}
+	ov := func(a, b []int64) bool { return a[0] <= b[len(b)-1] && b[0] <= a[len(a)-1] }
+	pairs, overl, chain := 0, 0, false
+	for i := 0; i < n; i++ {
+		for j := i + 1; j < n; j++ {
+			pairs++
+			if ov(files[i], files[j]) {
+				overl++
+				continue
+			}
+			for l := 0; l < n; l++ {
+				if l != i && l != j && ov(files[i], files[l]) && ov(files[j], files[l]) {
+					chain = true
+				}
+			}
+		}
+	}
+	switch {
+	case overl == 0:
+		return "disjoint"
+	case overl == pairs:
+		return "clique"
+	case chain:
+		return "chain"
+	}
+	return "mixed"
+}
+
+// layoutRun is a live engine that holds the batches `live`, each flushed to its own TSM file (generation), and
+// nothing else. Layouts with a common prefix of batches share the engine: the batches that differ are taken out again
+// with FileStore.Replace(files, nil) (what a compaction does with its inputs, without producing an output); an
+// engine is used for layouts with the same first batch only. Batch i (1-based) writes the value i.
+type layoutRun struct {
+	ix   *index
+	r    *run
+	live [][]int64
+}
+
+func (lr *layoutRun) close() {
+	if lr.r != nil {
+		lr.r.close()
+	}
+	lr.r, lr.live = nil, nil
+}
+
+func sameBatch(a, b []int64) bool {
+	if len(a) != len(b) {
+		return false
+	}
+	for i := range a {
+		if a[i] != b[i] {
+			return false
+		}
+	}
+	return true
+}
+
+// layoutModel: the map model of a layout; every batch but, if lastInCache, the last one is TSM-resident.
+func layoutModel(batches [][]int64, lastInCache bool) *model {
+	m := newModel()
+	for i, f := range batches {
+		for _, t := range f {
+			m.f[t] = float64(i + 1)
+			if !lastInCache || i < len(batches)-1 {
+				m.tf[t] = float64(i + 1)
+			}
+		}
+	}
+	return m
+}
+
+// keep removes all TSM files but the n oldest.
+func (lr *layoutRun) keep(n int) error {
+	fs := lr.r.files()
+	if len(fs) != len(lr.live) {
+		return fmt.Errorf("%d TSM files for %d flushed batches", len(fs), len(lr.live))
+	}
+	if n < len(fs) {
+		if err := lr.r.e.FileStore.Replace(fs[n:], nil); err != nil {
+			return err
+		}
+		lr.live = lr.live[:n]
+	}
+	if got := len(lr.r.files()); got != n {
+		return fmt.Errorf("%d TSM files left, want %d", got, n)
+	}
+	return nil
+}
+
+func (lr *layoutRun) write(batch []int64) error {
+	if len(batch) == 0 {
+		return fmt.Errorf("empty batch")
+	}
+	lr.r.val = float64(len(lr.live) + 1)
+	return lr.r.writeF(batch...)
+}
+
+func (lr *layoutRun) flush() error {
+	if err := lr.r.e.WriteSnapshot(); err != nil {
+		return err
+	}
+	if n := len(lr.r.files()); n != len(lr.live)+1 {
+		return fmt.Errorf("%d TSM files after snapshot %d", n, len(lr.live)+1)
+	}
+	return nil
+}
+
+// sync brings the engine to hold exactly the batches of prefix, one TSM file each.
+func (lr *layoutRun) sync(prefix [][]int64) error {
+	l := 0
+	for l < len(lr.live) && l < len(prefix) && sameBatch(lr.live[l], prefix[l]) {
+		l++
+	}
+	if lr.r == nil || l == 0 {
+		lr.close()
+		r, err := lr.ix.newRun()
+		if err != nil {
+			return err
+		}
+		lr.r = r
+	} else if err := lr.keep(l); err != nil {
+		return err
+	}
+	for _, f := range prefix[len(lr.live):] {
+		if err := lr.write(f); err != nil {
+			return err
+		}
+		if err := lr.flush(); err != nil {
+			return err
+		}
+		lr.live = append(lr.live, append([]int64{}, f...))
+	}
+	return nil
+}
+
+// leaf: with the engine holding prefix, writes the last batch, applies the read oracle while that batch is still in
+// the cache (the older ones in TSM files), flushes it, applies the oracle again, and takes the last file out again.
+func (lr *layoutRun) leaf(last []int64) (vs []verdict, herr string) {
+	all := append(append([][]int64{}, lr.live...), last)
+	hi := int64(0)
+	for _, f := range all {
+		for _, t := range f {
+			if t+1 > hi {
+				hi = t + 1
+			}
+		}
+	}
+	stage := func(name string, inCache bool) bool {
+		lr.r.m = layoutModel(all, inCache)
+		v, e := lr.r.check("flush-layout/"+name, hi, true)
+		if e != "" {
+			herr = name + ": " + e
+			return false
+		}
+		for _, x := range v {
+			x.msg = name + ": " + x.msg
+			vs = append(vs, x)
+		}
+		return len(vs) == 0
+	}
+	if err := lr.write(last); err != nil {
+		return nil, "write of the last batch: " + err.Error()
+	}
+	ok := stage("last-batch-in-cache", true)
+	if herr != "" {
+		return
+	}
+	if err := lr.flush(); err != nil {
+		return vs, "snapshot of the last batch: " + err.Error()
+	}
+	lr.live = all
+	if ok {
+		stage("all-flushed", false)
+	}
+	if err := lr.keep(len(all) - 1); err != nil && herr == "" {
+		herr = "taking the last file out: " + err.Error()
+	}
+	return
+}
+
+// executeLayout runs one layout from scratch on a fresh engine (replay).
+func (ix *index) executeLayout(files [][]int64) (res execResult) {
+	if len(files) == 0 {
+		res.herr = "no batches"
+		return
+	}
+	lr := &layoutRun{ix: ix}
+	defer lr.close()
+	if err := lr.sync(files[:len(files)-1]); err != nil {
+		res.herr = "building the older generations: " + err.Error()
+		return
+	}
+	res.verdicts, res.herr = lr.leaf(files[len(files)-1])
+	return
 }
 
 type bnode struct {
@@ -763,14 +1073,17 @@ func roots(thorough bool) []rootSpec {
 func TestCheck(t *testing.T) {
 	vlib.Main(t, &vlib.Check{
 		ID: "C01", Level: "model_checking",
-		Rule: "histories over the alphabet {W(f,t) for t∈{1,2,3} (float field, value = running counter, so every overwrite is distinguishable), Wbatch(f,[t=3,t=1]) in one WritePoints call, W(g,t=2) on a second field of type integer, Snap (Engine.WriteSnapshot), SnapBegin / SnapEnd (the two halves of Engine.doWriteSnapshot: close WAL segment + Cache.Snapshot | Deduplicate + writeSnapshotAndCommit, so that writes, reads, compactions and a reopen happen while a cache snapshot is in flight), Compact[i..j] of every interval of ≥2 adjacent generations with the engine's fast (CompactFast) and full (CompactFull) strategies, Opt (optimize strategy at aggressive points-per-block over all files), Reopen (close + open, WAL replay)} on a real tsm1.Engine with WAL; explicit-state BFS to depth D from root layouts (themselves histories): the empty shard (D = 4 quick, 6 thorough), the 2-generation layouts W1 W2 Snap W1 W3 Snap (D = 2, 5) and Wbatch(3,1) Snap W2 W3 Snap (D = 2, 4), the 3-generation layout W1 Snap W1 W2 Snap W2 W3 Snap (D = 2, 4) and, thorough only, the 4-generation layout W1 Snap W1 W2 Snap W2 W3 Snap W3 W1 Snap (D = 2): a transition replays the whole history on a fresh engine, then reads every range [a,b]⊆[0,4] ascending and descending through CreateCursorIterator array cursors for both fields, and the TSM-resident part from every seek time in both directions through KeyCursor, and compares with a map model (latest acknowledged value per timestamp); the reached state is keyed by what the implementation holds (cache contents and, per TSM file oldest→newest, level and contents, each stored version abstracted to latest/overwritten) and expanded only once. The first 1–2 levels below each root are explored by every worker, that frontier is dealt round-robin. The build uses DefaultMaxPointsPerBlock = 2 instead of 1000 (small-constant build) so that the three timestamps of a field span two TSM blocks and block-level merging in CompactFast/CompactFull/KeyCursor is exercised. states = distinct canonical keys, transitions = executed histories, traces = histories replayed on the implementation; non-trivial = transitions whose history contains a Snap or compaction and an overwrite",
+		Rule: "PART 1, flush layouts (histories W-batch Snap W-batch Snap ... with NO compaction): a layout is a tuple of n batches, batch i = a set of 1..p timestamps written in one WritePoints call with value i and then flushed by Engine.WriteSnapshot into its own TSM generation; enumerated are ALL tuples whose union of timestamps is exactly {1..k} (every assignment of timestamps to n batches over any grid of ≤ k values is order-isomorphic to exactly one of them, so all overlap patterns of the generations' time ranges occur: chains A∩C≠∅, C∩B≠∅, A∩B=∅ in every file order, nesting, disjoint and isolated first/last blocks, 3-point batches spanning two blocks); quick: n=1 (p≤3, k≤3), n=2 and n=3 (p≤3, k≤4), n=4 (p≤3, k≤3 and p≤2, k≤4) = 9446 layouts; thorough: n=1, n=2 and n=3 (p≤3, k≤6), n=4 (p≤3, k≤4 and p≤2 with k≤8, i.e. every order type of 4 batches of ≤2 points), n=5 (p≤3, k≤3 and p≤2, k≤4), then n=4 (p≤3, k=5); order: fewest distinct timestamps first, then fewest generations. For every layout the oracle runs twice: with the last batch still in the cache (older batches in TSM files) and after its flush: every range [a,b]⊆[0,k+1] ascending and descending through the CreateCursorIterator array cursor, and the TSM-resident part from every seek time in [0,k+1] in both directions through KeyCursor, compared with the map model (last batch wins per timestamp, strictly monotonic timestamps, no duplicates). Layouts sharing all batches but the last run on one engine (the last TSM file is taken out again with FileStore.Replace(file, nil)); engines are shared only among layouts with the same first batch; a violation is confirmed by replaying the layout from scratch on a fresh engine. Sharding unit: the tuple of the first n-1 batches. Non-trivial layout = n≥3 and the generations' time ranges neither all overlap nor are all disjoint. PART 2, histories over the alphabet {W(f,t) for t∈{1,2,3} (float field, value = running counter, so every overwrite is distinguishable), Wbatch(f,[t=3,t=1]) in one WritePoints call, W(g,t=2) on a second field of type integer, Snap (Engine.WriteSnapshot), SnapBegin / SnapEnd (the two halves of Engine.doWriteSnapshot: close WAL segment + Cache.Snapshot | Deduplicate + writeSnapshotAndCommit, so that writes, reads, compactions and a reopen happen while a cache snapshot is in flight), Compact[i..j] of every interval of ≥2 adjacent generations with the engine's fast (CompactFast) and full (CompactFull) strategies, Opt (optimize strategy at aggressive points-per-block over all files), Reopen (close + open, WAL replay)} on a real tsm1.Engine with WAL; explicit-state BFS to depth D from root layouts (themselves histories): the empty shard (D = 4 quick, 6 thorough), the 2-generation layouts W1 W2 Snap W1 W3 Snap (D = 2, 5) and Wbatch(3,1) Snap W2 W3 Snap (D = 2, 4), the 3-generation layout W1 Snap W1 W2 Snap W2 W3 Snap (D = 2, 4) and, thorough only, the 4-generation layout W1 Snap W1 W2 Snap W2 W3 Snap W3 W1 Snap (D = 2): a transition replays the whole history on a fresh engine, then reads every range [a,b]⊆[0,4] ascending and descending through CreateCursorIterator array cursors for both fields, and the TSM-resident part from every seek time in both directions through KeyCursor, and compares with a map model (latest acknowledged value per timestamp); the reached state is keyed by what the implementation holds (cache contents and, per TSM file oldest→newest, level and contents, each stored version abstracted to latest/overwritten) and expanded only once. The first 1–2 levels below each root are explored by every worker, that frontier is dealt round-robin. The build uses DefaultMaxPointsPerBlock = 2 instead of 1000 (small-constant build) so that the three timestamps of a field span two TSM blocks and block-level merging in CompactFast/CompactFull/KeyCursor is exercised. states = distinct canonical keys (part 2) + layouts (part 1, distinct by construction), transitions = executed histories, traces = histories replayed on the implementation; non-trivial = transitions whose history contains a Snap or compaction and an overwrite (part 2), see above for part 1. Budgets: part 1 35 s quick / 330 s thorough, then part 2 40 s / 540 s",
 		Assumptions: []string{
 			"the engine is deterministic for a given history when its background loops are off (prefixes are re-executed, not re-checked)",
 			"WAL segment layout and tsi1/series-file contents are not part of the state key (one shared tsi1 index + series file per worker, holding the single series key)",
 			"snapshots and compactions run to completion between steps (in-flight snapshot/compaction interleavings belong to C03/C09 style schedule checks)",
 			"KeyCursor returns whole blocks: only the part in seek direction is compared",
+			"flush layouts: the read paths depend on timestamps only through their order (layouts are enumerated up to order-isomorphism, on the grid 1..k); timestamps inside one batch are written in ascending order (the out-of-order batch is part 2's Wbatch)",
+			"flush layouts: taking the newest TSM file out with FileStore.Replace(file, nil) leaves the engine in the state it had before that batch was written (checked: file count; every reported violation is re-executed on a fresh engine)",
 		},
-		QuickBudgetS: 40, ThoroughBudgetS: 780,
+		WorkerEnv:    []string{"GOMAXPROCS=2"}, // 16 workers on 16 cores: keep each worker's GC and snapshot goroutines from oversubscribing the machine
+		QuickBudgetS: quickLayoutS + quickBFSS, ThoroughBudgetS: thoroughLayoutS + thoroughBFSS,
 		Run: func(c *vlib.Ctx) {
 			ix, err := openIndex()
 			if err != nil {
@@ -778,6 +1091,15 @@ func TestCheck(t *testing.T) {
 				return
 			}
 			defer ix.close()
+			// part 1: flush layouts (own share of the budget; the BFS below keeps the time it had before)
+			layoutBudget, bfsBudget := quickLayoutS*time.Second, quickBFSS*time.Second
+			if c.Thorough() {
+				layoutBudget, bfsBudget = thoroughLayoutS*time.Second, thoroughBFSS*time.Second
+			}
+			runLayouts(c, ix, time.Now().Add(layoutBudget))
+			bfsDeadline := time.Now().Add(bfsBudget)
+			expired := func() bool { return c.Expired() || time.Now().After(bfsDeadline) }
+			// part 2: BFS over operation histories
 			seen := map[string]int{} // canonical state -> largest remaining depth it was expanded with
 			complete := true
 			// expand runs one BFS level; report=false: silent (the shared first levels on shards ≠ 0)
@@ -787,7 +1109,7 @@ func TestCheck(t *testing.T) {
 						continue
 					}
 					for _, o := range opsFor(nd.nfiles, nd.inflight) {
-						if c.Expired() {
+						if expired() {
 							complete = false
 							return next
 						}
@@ -882,7 +1204,14 @@ func TestCheck(t *testing.T) {
 				return false, "open index: " + err.Error()
 			}
 			defer ix.close()
-			res := ix.execute(cs.Path, true)
+			var res execResult
+			what := pathString(cs.Path)
+			if len(cs.Flushes) > 0 {
+				res = ix.executeLayout(cs.Flushes)
+				what = layoutString(cs.Flushes)
+			} else {
+				res = ix.execute(cs.Path, true)
+			}
 			if res.herr != "" {
 				return false, "harness: " + res.herr
 			}
@@ -890,9 +1219,143 @@ func TestCheck(t *testing.T) {
 			for _, v := range res.verdicts {
 				msgs = append(msgs, v.sig+": "+v.msg)
 			}
-			return len(res.verdicts) > 0, pathString(cs.Path) + " => " + strings.Join(msgs, " | ")
+			return len(res.verdicts) > 0, what + " => " + strings.Join(msgs, " | ")
 		},
 	})
+}
+
+// budgets in seconds: the layouts part, then the BFS part
+const (
+	quickLayoutS, quickBFSS       = 35, 40
+	thoroughLayoutS, thoroughBFSS = 330, 540
+)
+
+// runLayouts enumerates the flush layouts of this tier, simplest family first. The unit of sharding is the prefix
+// (all batches but the last one): prefix number i belongs to shard i mod n, which runs every last batch on it.
+func runLayouts(c *vlib.Ctx, ix *index, deadline time.Time) {
+	lr := &layoutRun{ix: ix}
+	defer lr.close()
+	pidx := int64(0)
+	t0, mineN := time.Now(), 0
+	specs := layoutSpecs(c.Thorough())
+	kmax, phases := 0, 0
+	for _, sp := range specs {
+		if sp.kmax > kmax {
+			kmax = sp.kmax
+		}
+		if sp.phase+1 > phases {
+			phases = sp.phase + 1
+		}
+	}
+	type job struct {
+		k, si int
+	}
+	var jobs []job // processing order: phase, then fewest distinct timestamps, then fewest generations
+	for ph := 0; ph < phases; ph++ {
+		for k := 1; k <= kmax; k++ {
+			for si, sp := range specs {
+				if sp.phase == ph && k <= sp.kmax {
+					jobs = append(jobs, job{k, si})
+				}
+			}
+		}
+	}
+	for _, jb := range jobs {
+		k, si, sp := jb.k, jb.si, specs[jb.si]
+		// families processed before this one at the same k: their layouts are not run twice
+		var before []layoutSpec
+		for qi, q := range specs {
+			if q.phase < sp.phase || (q.phase == sp.phase && qi < si) {
+				before = append(before, q)
+			}
+		}
+		whole := false
+		for _, q := range before {
+			whole = whole || q.covers(sp.nf, k, sp.p)
+		}
+		if whole {
+			continue
+		}
+		capped := false
+		full := uint(1)<<uint(k) - 1
+		lasts := subsets(k, sp.p)
+		forPrefixes(sp.nf-1, k, sp.p, func(masks []uint, union uint) bool {
+			pidx++
+			if !c.Mine(pidx) {
+				return true
+			}
+			prefix := make([][]int64, len(masks))
+			for i, m := range masks {
+				prefix[i] = maskTimes(m)
+			}
+			synced := false
+			for _, lm := range lasts {
+				if union|lm != full {
+					continue
+				}
+				dup, pop := false, maxPop(masks, lm)
+				for _, q := range before {
+					dup = dup || q.covers(sp.nf, k, pop)
+				}
+				if dup {
+					continue
+				}
+				if c.Expired() || time.Now().After(deadline) {
+					capped = true
+					return false
+				}
+				files := append(append([][]int64{}, prefix...), maskTimes(lm))
+				if !synced {
+					if err := lr.sync(prefix); err != nil {
+						c.HarnessError(layoutString(files) + ": building the older generations: " + err.Error())
+						lr.close()
+						return true
+					}
+					synced = true
+				}
+				mineN++
+				vs, herr := lr.leaf(files[len(files)-1])
+				if herr != "" {
+					c.HarnessError(layoutString(files) + ": " + herr)
+					lr.close()
+					synced = false
+					continue
+				}
+				pat := layoutPattern(files)
+				c.Eval(1)
+				c.Transition(1)
+				c.Trace(1)
+				c.StateN(1)
+				c.Outcome(fmt.Sprintf("layout:gens%d:%s", sp.nf, pat))
+				if sp.nf >= 3 && (pat == "chain" || pat == "mixed") {
+					c.NontrivialN(1)
+					if c.WantSample() && pat == "chain" && sp.nf >= 4 {
+						c.Sample(map[string]any{"flush_layout": layoutString(files), "pattern": pat})
+					}
+				}
+				for _, v := range vs {
+					c.Violation(v.sig, layoutString(files)+": "+v.msg, Case{Flushes: files})
+				}
+			}
+			return true
+		})
+		if capped {
+			c.Cap(fmt.Sprintf("flush-layout budget expired in family generations=%d points≤%d at %d distinct timestamps (the families enumerated before it are complete)", sp.nf, sp.p, k))
+			c.Logf("shard %d: %d flush layouts in %v (capped)", c.Shard, mineN, time.Since(t0))
+			return
+		}
+	}
+	c.Logf("shard %d: %d flush layouts in %v", c.Shard, mineN, time.Since(t0))
+}
+
+func maxPop(masks []uint, last uint) int {
+	n := popcount(last)
+	for _, m := range masks {
+		if p := popcount(m); p > n {
+			n = p
+		}
+	}
+	return n
 }
 
 // interesting: the history flushes or compacts and overwrites some timestamp.
